@@ -1,5 +1,5 @@
 // C04: sample table / counter table serialization.
-// Sample case tokens: a <t_ns> <stack|n> <cpu_us> <w> | m <t_ns> <w>
+// Sample case tokens: a <t_ns> <stack|n> <cpu_us> <w> | m <t_ns> <w> | e <t_ns> (set_thread_end_time) | b <t_ns> (set_thread_start_time) | nm <name> (set_thread_name)
 // Counter case tokens: k <t_ns> <value> <number>
 // Outcome: one token per serialized row "<delta_ns>:<stack|n>:<w>:<cpu>" (counters: "<delta_ns>:<number>:<value>:0"),
 //          "X" appended if a delta is negative / not finite / not an exact ns, "P" if serialization or a call panicked.
@@ -54,6 +54,19 @@ pub fn run_samples(toks: &[&str]) -> String {
                     let w: i32 = toks[i + 2].parse().unwrap();
                     profile.add_sample_same_stack_zero_cpu(thread, Timestamp::from_nanos_since_reference(t), w);
                     i += 3;
+                }
+                // calls about the thread's lifetime and name, anywhere between the samples: they say nothing about the samples
+                "e" => {
+                    profile.set_thread_end_time(thread, Timestamp::from_nanos_since_reference(toks[i + 1].parse().unwrap()));
+                    i += 2;
+                }
+                "b" => {
+                    profile.set_thread_start_time(thread, Timestamp::from_nanos_since_reference(toks[i + 1].parse().unwrap()));
+                    i += 2;
+                }
+                "nm" => {
+                    profile.set_thread_name(thread, toks[i + 1]);
+                    i += 2;
                 }
                 t => panic!("bad token {t}"),
             }
